@@ -27,8 +27,8 @@ func checkC12(r *Run) {
 	r7 := r.Rule("R-C12-7", "Retry re-queues exactly the failed entry's continuation followed by the unattempted tail")
 	r8 := r.Rule("R-C12-8", "the DUP bit on the wire is Message.Dup for every QoS: PUBLISH header = 0x30 | retain | qos | (Dup ? 0x08), the DUP contribution not nested in a QoS arm")
 	r1.Floor(1)
-	r3.Floor(3)
-	r5.Floor(3)
+	r3.Floor(2)
+	r5.Floor(2)
 	for _, pi := range c.packSites() {
 		if pi.T != "pktPublish" {
 			continue
@@ -174,7 +174,7 @@ func checkC12(r *Run) {
 				}
 			}
 			if tn == "Subscription" && !c.freshBase(fa) {
-				if f.Name() == "subscribeImpl" && fld.Name() == "QoS" {
+				if f == c.Func("subscribeImpl") && fld.Name() == "QoS" {
 					return // SUBACK copy-back, R-C07-5
 				}
 				zero2++
